@@ -287,6 +287,25 @@ fn cross_kind(out: &mut Outcome, d: &Digest, kind: &str, round: u64, hash: &Dige
     }
 }
 
+/// Every field of a block in comparable form (signer lists as sorted sets).
+pub fn shape(b: &Block) -> (Vec<u8>, u64, Vec<Vec<u8>>, (Vec<u8>, u64, Vec<Vec<u8>>), Option<(u64, Vec<Vec<u8>>)>, Vec<u8>) {
+    let mut qv: Vec<Vec<u8>> = b.qc.votes.iter().map(|e| bincode::serialize(e).unwrap()).collect();
+    qv.sort();
+    let tc = b.tc.as_ref().map(|tc| {
+        let mut tv: Vec<Vec<u8>> = tc.votes.iter().map(|e| bincode::serialize(e).unwrap()).collect();
+        tv.sort();
+        (tc.round, tv)
+    });
+    (
+        b.author.0.to_vec(),
+        b.round,
+        b.payload.iter().map(|d| d.0.to_vec()).collect(),
+        (b.qc.hash.0.to_vec(), b.qc.round, qv),
+        tc,
+        bincode::serialize(&b.signature).unwrap(),
+    )
+}
+
 fn run_roundtrip(case: &Case, _ctx: &Ctx) -> Outcome {
     let mut t = Tape::new(&case.tape);
     let mut out = Outcome::default();
@@ -353,6 +372,33 @@ fn run_roundtrip(case: &Case, _ctx: &Ctx) -> Outcome {
     let com = &w.ccom;
     rt!("block", block, Block, ConsensusMessage::Propose(block.clone()), ConsensusMessage::Propose(b) => b,
         |b: &Block| b.digest(), |b: &Block| b.verify(com));
+    // the block read back is the same message, not merely one with the same digest: every field that the
+    // digest does not cover (certificates, signature) must survive too (signer lists compared as sets)
+    {
+        let want = shape(&block);
+        let direct: Option<Block> = bincode::deserialize(&bincode::serialize(&block).unwrap()).ok();
+        let wire: Option<Block> = match bincode::deserialize(&bincode::serialize(&ConsensusMessage::Propose(block.clone())).unwrap()) {
+            Ok(ConsensusMessage::Propose(b)) => Some(b),
+            _ => None,
+        };
+        for (how, back) in [("store encoding", direct), ("wire", wire)] {
+            if let Some(back) = back {
+                let got = shape(&back);
+                if got != want {
+                    let what = if got.4 != want.4 {
+                        "timeout certificate"
+                    } else if got.3 != want.3 {
+                        "quorum certificate"
+                    } else if got.5 != want.5 {
+                        "signature"
+                    } else {
+                        "author/round/payload"
+                    };
+                    out.violate("block-roundtrip-loses-field", format!("block read back through the {} differs in its {}", how, what), hist.clone());
+                }
+            }
+        }
+    }
     rt!("vote", vote, Vote, ConsensusMessage::Vote(vote.clone()), ConsensusMessage::Vote(v) => v,
         |v: &Vote| v.digest(), |v: &Vote| v.verify(com));
     rt!("timeout", timeout, Timeout, ConsensusMessage::Timeout(timeout.clone()), ConsensusMessage::Timeout(x) => x,
